@@ -1001,7 +1001,6 @@ func litInherited(p *Prog, fi *FuncInfo, lit *ast.FuncLit, depth int) map[*types
 	return out
 }
 
-
 // lockAtNode: when set, the lock queries locate their point by this node's identity instead of by position.
 var lockAtNode ast.Node
 
